@@ -126,6 +126,20 @@ def regen_facts(ctx):
             open(tmp, "w").write(out)
             os.replace(tmp, path)
             ctx.note("facts changed: %s regenerated" % rel)
+    # C12 / C18 facts: public surface around unverified tokens and keys (python scan)
+    try:
+        import apiscan
+        text = apiscan.emit()
+        path = os.path.join(LEAN, "PasetoModel", "Extracted", "Api.lean")
+        old = open(path).read() if os.path.exists(path) else None
+        if old != text:
+            tmp = path + ".tmp%d" % os.getpid()
+            open(tmp, "w").write(text)
+            os.replace(tmp, path)
+            ctx.note("facts changed: PasetoModel/Extracted/Api.lean regenerated")
+    except Exception as e:
+        ctx.k_broken.append({"kind": "facts", "detail": "apiscan failed: %r" % (e,)})
+        ok = False
     # C19 facts: feature tables + cfg-gate scan (python)
     try:
         import featscan
